@@ -33,7 +33,7 @@ fn call_with_name(op: u16, nparams: usize, name: &str, lang: &RealLang) -> Strin
 impl Property for C20 {
     fn id(&self) -> &'static str { "C20" }
     fn rule(&self) -> &'static str {
-        "ANM files with 1..3 entries, sprites with explicit ids anywhere (increasing, decreasing, duplicate, constant expressions), names repeated across entries (same id: legal; different id: must be an error), scripts with explicit numbers in any order, and sprite / script names used as instruction arguments before and after their definition; STD files whose instances name objects in any order; MSG / END files with sparse tables, a default entry and shared scripts; pre-TH10 ECL files whose timelines and subs call subs by name: every thing carries a unique marker (sprite width, object layer, a marker instruction), so the check finds in the re-read output file the id / index / script that the written number designates and compares it with the named thing; sprite ids also against the harness's own numbering model; unknown names and conflicting definitions must be rejected with an error. non-trivial = at least one name reference resolved in the written file"
+        "ANM files with 1..3 entries, sprites with explicit ids anywhere (increasing, decreasing, duplicate, constant expressions), names repeated across entries (same id: legal; different id: must be an error), scripts with explicit numbers in any order, and sprite / script names used as instruction arguments before and after their definition; STD files whose instances name objects in any order; MSG / END files with sparse tables, a default entry, explicitly empty slots and shared scripts; ANM scripts carrying the name of a sprite; pre-TH10 ECL files whose timelines and subs call subs by name: every thing carries a unique marker (sprite width, object layer, a marker instruction), so the check finds in the re-read output file the id / index / script that the written number designates and compares it with the named thing; sprite ids also against the harness's own numbering model; unknown names and conflicting definitions must be rejected with an error. non-trivial = at least one name reference resolved in the written file"
     }
     fn tape_len(&self, tier: Tier) -> usize { tier.pick(250, 400) }
     fn cases(&self, tier: Tier) -> u32 { tier.pick(120_000, 3_000_000) }
